@@ -78,8 +78,8 @@ theorem addSpec_shape : ∀ (order : List (Nat × Nat)) (A B : List HTree) (n : 
 theorem declsOfKids_split (A B : List HTree)
     (hA : ∀ x ∈ A, (x.value.category == Category.namespace) = true)
     (hB : ∀ y, B.head? = some y → (y.value.category == Category.namespace) = false) :
-    declsOfKids (A ++ B) = A.filterMap (fun k => fcNsPair k.value) := by
-  unfold declsOfKids
+    fcDeclsOfKids (A ++ B) = A.filterMap (fun k => fcNsPair k.value) := by
+  unfold fcDeclsOfKids
   rw [(takeWhile_split _ A B hA hB).1]
 
 /-- The loop's test: is the prefix declared by a namespace child? -/
@@ -125,9 +125,9 @@ theorem addSpec_declares : ∀ (order : List (Nat × Nat)) (A B : List HTree) (n
     (∀ x ∈ A, (x.value.category == Category.namespace) = true) →
     (∀ y, B.head? = some y → (y.value.category == Category.namespace) = false) →
     (∀ a ∈ order, ∀ b ∈ order, a.1 = b.1 → a = b) →
-    (∀ x ∈ A.filterMap (fun k => fcNsPair k.value), x ∈ declsOfKids (addSpec (A ++ B) n order).1) ∧
+    (∀ x ∈ A.filterMap (fun k => fcNsPair k.value), x ∈ fcDeclsOfKids (addSpec (A ++ B) n order).1) ∧
     ∀ b ∈ order, (∀ x ∈ A.filterMap (fun k => fcNsPair k.value), x.1 = b.1 → x = b) →
-      b ∈ declsOfKids (addSpec (A ++ B) n order).1
+      b ∈ fcDeclsOfKids (addSpec (A ++ B) n order).1
   | [], A, B, n, hA, hB, _ => by
     simp only [addSpec]
     rw [declsOfKids_split A B hA hB]
@@ -179,7 +179,7 @@ theorem addSpec_declares : ∀ (order : List (Nat × Nat)) (A B : List HTree) (n
 theorem addSpec_decls_sub : ∀ (order : List (Nat × Nat)) (A B : List HTree) (n : Nat),
     (∀ x ∈ A, (x.value.category == Category.namespace) = true) →
     (∀ y, B.head? = some y → (y.value.category == Category.namespace) = false) →
-    ∀ b ∈ declsOfKids (addSpec (A ++ B) n order).1,
+    ∀ b ∈ fcDeclsOfKids (addSpec (A ++ B) n order).1,
       b ∈ A.filterMap (fun k => fcNsPair k.value) ∨
       (b ∈ order ∧ ∀ x ∈ A.filterMap (fun k => fcNsPair k.value), x.1 ≠ b.1)
   | [], A, B, n, hA, hB => by
